@@ -346,7 +346,8 @@ def make_phonetic_event(shape):
                  "backspace": {"op": "backspace", "ctrl": bool(model_value(mm, c["ctrl"]))},
                  "commit": {"op": "commit", "index": int(model_value(mm, c["index"]))}, "finish": {"op": "finish"}}[ev]
             return dict(buffer=model_string(mm, c["buf"]), event=e, shown=m, returns=k, sug=shape["sug"],
-                        prev_selection=int(model_value(mm, c["prev"])))
+                        prev_selection=int(model_value(mm, c["prev"])),
+                        shown_items=[[2, model_string(mm, x.fields[0].elems), int(model_value(mm, x.fields[1]))] for x in c["shown"]])
 
         def pred(mm):
             if out[0] == "panic":
@@ -413,7 +414,8 @@ def phonetic_event_scenario(inp):
     """Native run from the planted typed text; the real assembly runs, so only what does not depend on the candidate
     content is compared (typed text, flag, panic, list non-empty)."""
     cfg = {"layout": "avro_phonetic", "database": REPO + "/data", "opts": {"phonetic_suggestion": inp["sug"]}}
-    return {"steps": [{"op": "new", "config": cfg}, {"op": "set_state", "state": {"buffer": inp["buffer"]}}, inp["event"], {"op": "get_state"}]}
+    state = {"buffer": inp["buffer"], "prev_selection": min(inp.get("prev_selection", 0), 1 << 31), "suggestions": inp.get("shown_items", [])}
+    return {"steps": [{"op": "new", "config": cfg}, {"op": "set_state", "state": state}, inp["event"], {"op": "get_state"}]}
 
 
 def phonetic_event_compare(w, res):
@@ -424,8 +426,6 @@ def phonetic_event_compare(w, res):
         # panics of the glue do not depend on candidate content only when the index/selection is in range natively too
         return None
     if "panic" in ev:
-        if w["inputs"]["event"]["op"] == "commit":
-            return None     # natively the shown list was never produced (state planted): index may be out of range there
         return "native run panics: %s" % ev["panic"]
     st = rr[3]["state"]
     if st["buffer"] != p["buffer"]:
@@ -513,6 +513,43 @@ def selection_search_other(v):
     return None
 
 
+def session_search_phonetic(v):
+    """Re-find a session-state violation of the phonetic method natively: short typed texts (words, emoticons, lone punctuation), each
+    terminating event, every commit index; then the flag, the typed text left behind and one continuation key are compared with a new context."""
+    import obl_assembly
+    keys = obl_assembly.char_keys()
+    texts = ["a", "ami", ";)", ":)", ".", "a.", "(a)", "xD", "\"", "k"]
+    scs = []
+    meta = []
+    for en in (False, True):
+        cfg = {"layout": "avro_phonetic", "database": REPO + "/data", "opts": {"phonetic_suggestion": True, "english": en}}
+        first = [{"steps": [{"op": "new", "config": cfg}] + [{"op": "key", "key": keys[ch], "sel": 0} for ch in t]} for t in texts]
+        res = run_replay(first)
+        for t, r in zip(texts, res):
+            sug = r["results"][-1].get("suggestion", {})
+            n = sug.get("len", 1) if sug.get("kind") == "full" else 1
+            events = [{"op": "commit", "index": i} for i in range(n)] + [{"op": "finish"}, {"op": "backspace", "ctrl": True}]
+            for ev in events:
+                steps = [{"op": "new", "ctx": 0, "config": cfg}] + [{"op": "key", "ctx": 0, "key": keys[ch], "sel": 0} for ch in t]
+                steps += [dict(ev, ctx=0), {"op": "get_state", "ctx": 0}, {"op": "key", "ctx": 0, "key": keys["k"], "sel": 0},
+                          {"op": "new", "ctx": 1, "config": cfg}, {"op": "key", "ctx": 1, "key": keys["k"], "sel": 0}]
+                scs.append({"steps": steps})
+                meta.append((t, en, ev))
+    out = run_replay_parallel(scs)
+    for (t, en, ev), sc, r in zip(meta, scs, out):
+        rr = r["results"]
+        e, st, cont, fresh = rr[-5], rr[-4], rr[-3], rr[-1]
+        if "panic" in e or "panic" in cont:
+            return sc, [e, cont], "typed %r then %s: %s" % (t, json.dumps(ev), e.get("panic") or cont.get("panic"))
+        if e.get("ongoing") or st.get("state", {}).get("buffer") != "":
+            return sc, [e, st], "typed %r (English %s) then %s: the session flag is %s and the typed text left is %r" % (
+                t, en, json.dumps(ev), e.get("ongoing"), st.get("state", {}).get("buffer"))
+        if cont.get("suggestion") != fresh.get("suggestion"):
+            return sc, [cont, fresh], "typed %r (English %s) then %s: the next key gives %s, a new context gives %s" % (
+                t, en, json.dumps(ev), json.dumps(cont.get("suggestion"), ensure_ascii=False)[:200], json.dumps(fresh.get("suggestion"), ensure_ascii=False)[:200])
+    return None
+
+
 def obl_phonetic_glue(check, max_n, budget_s=None):
     shapes = []
     for ev in ("key", "backspace", "commit", "finish"):
@@ -563,6 +600,9 @@ def obl_phonetic_glue(check, max_n, budget_s=None):
             found = selection_search(vs[0])
         elif "selection_inside_list" in key or "list_not_empty" in key:
             found = selection_search_other(vs[0])
+        elif vs[0]["clause"] in ("flag_matches_state", "terminating_event_clears_composition", "idle_backspace_starts_nothing", "backspace_progress",
+                                 "nonempty_return_means_ongoing", "empty_return_ends_session"):
+            found = session_search_phonetic(vs[0])
         if found is None:
             # generic: replay from the planted typed text
             for v in vs[:6]:
